@@ -344,7 +344,7 @@ class C17(object):
     time_keys = {"operations": "operations applied to the system and the model"}
     fault_keys = ["operations_that_raised"]
     tiers = {"quick": {"runs": 40000, "budget_s": 60, "selftest_every": 100, "fresh_selftest": 10},
-             "thorough": {"runs": 4000000, "budget_s": 800, "selftest_every": 1000, "fresh_selftest": 20}}
+             "thorough": {"runs": 9000000, "budget_s": 800, "selftest_every": 1000, "fresh_selftest": 20}}
     rule = ("one run = one history: initial columnfile (empty | dict-built | text-file-loaded | HDF-loaded) followed by "
             "1..40 operations drawn from addcolumn/setcolumn/__setitem__/__setattr__ (scalar, array)/in-place writes "
             "through each view/filter/removerows/sortby/reorder/copy/copyrows/get_bigarray/set_bigarray on up to three "
